@@ -475,6 +475,31 @@ def restore_hook_factory(results, every_step=False, old_commits=False, restore_v
 
 # ------------------------------------------------------------------------------------------------ corpus
 
+def parse_model_line(line):
+    """inverse of repo_harness.model_line (histories are stored as model lines in replay files and in the corpus)"""
+    t = line.split('\t')
+    n = lambda x: None if x == '-' else x
+    if t[0] == 'write': return {'op': 'write', 'path': t[1], 'bytes': bytes.fromhex(t[2]), 'cname': 'c'}
+    if t[0] == 'delete': return {'op': 'delete', 'path': t[1]}
+    if t[0] == 'track': return {'op': 'track', 'method': n(t[1]), 'tob': n(t[2]), 'no_commit': t[3] == '1', 'force': t[4] == '1', 'targets': t[5:]}
+    if t[0] == 'carryin': return {'op': 'carryin', 'tob': n(t[1]), 'force': t[2] == '1', 'targets': t[3:]}
+    if t[0] == 'recheck': return {'op': 'recheck', 'method': n(t[1]), 'force': t[2] == '1', 'targets': t[3:]}
+    if t[0] == 'remove':
+        c = {'op': 'remove', 'all_versions': t[1] == '1', 'force': t[2] == '1', 'targets': t[3:]}
+        if t[1].startswith('only:'):
+            p, k = t[1][5:].rsplit(':', 1)
+            c['only_version'] = [p, int(k)]
+        return c
+    if t[0] == 'untrack': return {'op': 'untrack', 'targets': t[1:]}
+    if t[0] == 'untrackr':
+        nb = int(t[1])
+        return {'op': 'untrack', 'restore_versions': '../restored-replay-' + str(abs(hash(line)) % 100000), 'block': [[t[2 + 2 * i], int(t[3 + 2 * i])] for i in range(nb)] or None,
+                'targets': t[2 + 2 * nb:]}
+    if t[0] == 'copy': return {'op': 'copy', 'method': n(t[1]), 'no_recheck': t[2] == '1', 'force': t[3] == '1', 'src': t[4], 'dst': t[5]}
+    if t[0] == 'move': return {'op': 'move', 'method': n(t[1]), 'no_recheck': t[2] == '1', 'src': t[3], 'dst': t[4]}
+    return None
+
+
 def W(p, b, n=None): return {'op': 'write', 'path': p, 'bytes': b, 'cname': n or 'c'}
 def T(ts, **k): return dict({'op': 'track', 'targets': ts}, **k)
 def CI(ts, **k): return dict({'op': 'carryin', 'targets': ts}, **k)
@@ -498,6 +523,13 @@ CORPUS = [
     # K7 (fixed): untrack of a hard link whose object is shared
     ('K7', DEF, [W('a.txt', b'dup\n'), W('b.txt', b'dup\n'), T(['a.txt', 'b.txt'], method='hardlink'), {'op': 'untrack', 'targets': ['a.txt']},
                  T(['a.txt'], method='reflink'), {'op': 'untrack', 'targets': ['a.txt', 'b.txt']}]),
+    # F23 (fixed): a hard-linked file re-committed under another digest (text_or_binary change) has two cache names on one
+    # inode; removing one of them must not make the other writable
+    ('F23', {'algo': 2, 'method': 'copy', 'tob': 'auto'}, [parse_model_line(l) for l in [
+        'write\td/h.bin\tc3a7c49fc3bc0aceb1ceb2ceb30a', 'track\t-\tauto\t0\t0\tünï/dätä.txt\ta.txt\td/h.bin', 'carryin\t-\t0\ta.txt',
+        'carryin\t-\t0\ta.txt\tünï/dätä.txt\td/h.bin', 'copy\thardlink\t0\t0\td/h.bin\tg.bin', 'copy\tcopy\t0\t0\tg.bin\td/h.bin',
+        'write\td/h.bin\t616c7068610a626574610a67616d6d610a233735', 'track\t-\tbinary\t0\t0\tg.bin\td/h.bin',
+        'track\tcopy\tauto\t0\t0\tg.bin\tünï/dätä.txt\td/h.bin', 'carryin\ttext\t0\ta.txt', 'remove\t0\t1\tg.bin']]),
     ('versions', DEF, [W('a.txt', b'v1\n'), T(['a.txt']), W('a.txt', b'v2\n'), CI(['a.txt']), W('a.txt', b'v3\n'), T(['a.txt']), {'op': 'delete', 'path': 'a.txt'}, RC(['a.txt'], method='hardlink')]),
     ('share', {'algo': 2, 'method': 'hardlink', 'tob': 'auto'}, [W('a.txt', b'dup\n'), W('b.txt', b'dup\n'), T(['a.txt', 'b.txt']), {'op': 'remove', 'targets': ['a.txt']},
                                                                   {'op': 'untrack', 'targets': ['a.txt']}, RC(['b.txt'], method='copy')]),
@@ -514,7 +546,7 @@ KNOWN_REPLAYS = [
 ]
 
 
-def run_property(chk, pid, oracles, want=('main',), restore=None, nq=280, nt=3000, maxlen=12, extra_corpus=()):
+def run_property(chk, pid, oracles, want=('main',), restore=None, nq=280, nt=3000, maxlen=12, extra_corpus=(), before_finish=None):
     """oracles: list of step-level oracle functions; restore: dict of kwargs for restore_hook_factory or None"""
     quick = chk.tier == 'quick'
     model = chk.lean('XvcRepo', f'XvcRepo.Props.{pid}', exe='repomodel', extra_modules=['XvcRepo.Model', 'XvcRepo.Cache', 'XvcRepo.NoLoss', 'XvcRepo.RecGrow'])
@@ -643,6 +675,8 @@ def run_property(chk, pid, oracles, want=('main',), restore=None, nq=280, nt=300
                          'parallel on/off, content classes empty/LF/CRLF/mixed/binary/NUL at 7999|8000/large/UTF-8/duplicates, paths nested/no extension/space/non-ASCII/hidden); '
                          'after EVERY command the abstraction of the real repository (workspace kinds+bytes+mode+link target, cache objects+modes, records replayed from the JSON event files) '
                          'is compared with the Lean driver; a history is non-trivial when it has >= 2 xvc commands and a non-empty cache; distinct by command list')
+    if before_finish:
+        before_finish()
     return chk.finish()
 
 
@@ -651,18 +685,7 @@ def replay_property(chk, data, oracles, restore=None):
     r = Runner(chk, xvc, '/bin/false')
     for f in data.get('failures', []):
         case = f['case']
-        h = []
-        for line in case.get('history', []):
-            t = line.split('\t')
-            if t[0] == 'write': h.append({'op': 'write', 'path': t[1], 'bytes': bytes.fromhex(t[2])})
-            elif t[0] == 'delete': h.append({'op': 'delete', 'path': t[1]})
-            elif t[0] == 'track': h.append({'op': 'track', 'method': None if t[1] == '-' else t[1], 'tob': None if t[2] == '-' else t[2], 'no_commit': t[3] == '1', 'force': t[4] == '1', 'targets': t[5:]})
-            elif t[0] == 'carryin': h.append({'op': 'carryin', 'tob': None if t[1] == '-' else t[1], 'force': t[2] == '1', 'targets': t[3:]})
-            elif t[0] == 'recheck': h.append({'op': 'recheck', 'method': None if t[1] == '-' else t[1], 'force': t[2] == '1', 'targets': t[3:]})
-            elif t[0] == 'remove': h.append({'op': 'remove', 'all_versions': t[1] == '1', 'force': t[2] == '1', 'targets': t[3:]})
-            elif t[0] == 'untrack': h.append({'op': 'untrack', 'targets': t[1:]})
-            elif t[0] == 'copy': h.append({'op': 'copy', 'method': None if t[1] == '-' else t[1], 'no_recheck': t[2] == '1', 'force': t[3] == '1', 'src': t[4], 'dst': t[5]})
-            elif t[0] == 'move': h.append({'op': 'move', 'method': None if t[1] == '-' else t[1], 'no_recheck': t[2] == '1', 'src': t[3], 'dst': t[4]})
+        h = [c for c in (parse_model_line(l) for l in case.get('history', [])) if c]
         if not h:
             print('replay file has no machine-readable history (known-finding replay): see lib/repo_check.py KNOWN_REPLAYS'); continue
         res = {}
